@@ -21,8 +21,9 @@ OBLIGATIONS = ['PGA.Estimate.' + t for t in [
 RULE = ('case = (library with uncertainty data, ordered mapping, T).  Libraries: the three shipped ones that carry uq data, copies of them '
         'extended (through the real constructor) by one group that has data but is outside the basis, and synthetic ones with small '
         'dyadic matrices (PSD and indefinite), incl. a library without uq data.  Mappings: the unit vector of EVERY basis descriptor, '
-        'random sparse/dense mappings with integer, fractional, zero, negative counts, each also scaled by a common factor and '
-        'permuted, mappings with an out-of-basis descriptor.  T inside and outside the RMSE table.  Non-trivial = >= 2 descriptors or a '
+        'random sparse/dense mappings with integer, fractional, zero, negative counts, each also scaled by a common factor (an ordinary '
+        'one, a tiny one down to 1e-100 and a huge one up to 1e100) and permuted, a fifth of the mappings themselves with all counts '
+        'tiny or huge, mappings with an out-of-basis descriptor.  T inside and outside the RMSE table.  Non-trivial = >= 2 descriptors or a '
         'non-unit count or an out-of-basis descriptor; distinct = distinct (library, sorted names+counts, T).')
 ASSUMPTIONS = ['np.dot on float64 is modelled by exact rational arithmetic on the decimal value of each matrix literal; comparison '
                '|impl - model| <= 1e-9*(|model| + sum_ij |x_i M_ij x_j|); exact equality on dyadic synthetic matrices',
@@ -143,20 +144,47 @@ def relational(ctx, c):
     m2 = list(c.mapping)
     rng.shuffle(m2)
     s2, e2 = ses(m2)
-    k = rng.choice([2, -1, -3, 0.5, 0, 4])
-    s3, e3 = ses([(g, n * k) for g, n in c.mapping])
+    # a common factor on all counts: an ordinary one, a tiny one and a huge one (an absolute threshold, a rounding to a fixed
+    # number of decimals or a clip anywhere between x'Mx and the returned number shows only far from the scale of ordinary counts);
+    # powers of two where the library is compared exactly
+    factors = [rng.choice(ORDINARY_FACTORS), rng.choice(TINY_POW2 if info.exact_mode else TINY_FACTORS),
+               rng.choice(HUGE_POW2 if info.exact_mode else HUGE_FACTORS)]
+    if c.input.get('factor') is not None:
+        factors.insert(0, float(c.input['factor']))
+    for k in factors:
+        ctx.count('relational_factor_' + ('zero' if k == 0 else 'tiny' if abs(k) < 1e-2 else 'huge' if abs(k) > 1e2 else 'ordinary'))
+        s3, e3 = ses([(g, n * k) for g, n in c.mapping])
+        for p, _ in SE_GET:
+            a = base[p]
+            if a[0] != 'ok' or math.isnan(float(a[1])):
+                continue
+            if s3[p][0] != 'ok' or not common.close(s3[p][1], abs(k) * float(a[1]), 0.0, rel=1e-7):
+                # sqrt near zero amplifies rounding of a cancelling q: compare squares with the scale of the terms
+                if s3[p][0] != 'ok' or not common.close(float(s3[p][1]) ** 2, (k * float(a[1])) ** 2,
+                                                         (k ** 2) * getattr(c, 'q_scale', 0.0) * float(L.corr_val(info.uq['rmse'], p, T)[1] or 0) ** 2, rel=1e-7):
+                    ctx.violation('SE does not scale with the absolute value of a common factor on all counts',
+                                  dict(c.input, factor=k, property=p), abs(k) * float(a[1]), s3[p])
     for p, _ in SE_GET:
         a = base[p]
         if a[0] != 'ok' or math.isnan(float(a[1])):
             continue        # nan only arises from a negative radicand (indefinite synthetic matrix); the oracle has judged it
         if s2[p][0] != 'ok' or float(s2[p][1]) != float(a[1]):
             ctx.violation('SE depends on the order of the mapping', dict(c.input, permuted=[str(g) for g, _ in m2], property=p), a, s2[p])
-        if s3[p][0] != 'ok' or not common.close(s3[p][1], abs(k) * float(a[1]), 0.0, rel=1e-7):
-            # sqrt near zero amplifies rounding of a cancelling q: compare squares with the scale of the terms
-            if s3[p][0] != 'ok' or not common.close(float(s3[p][1]) ** 2, (k * float(a[1])) ** 2,
-                                                     (k ** 2) * getattr(c, 'q_scale', 0.0) * float(L.corr_val(info.uq['rmse'], p, T)[1] or 0) ** 2, rel=1e-7):
-                ctx.violation('SE does not scale with the absolute value of a common factor on all counts',
-                              dict(c.input, factor=k, property=p), abs(k) * float(a[1]), s3[p])
+
+
+ORDINARY_FACTORS = [2, -1, -3, 0.5, 0, 4]
+TINY_FACTORS = [1e-3, 1e-5, 1e-6, -1e-7, 1e-9, 1e-12, -1e-20, 1e-50, 1e-100]
+HUGE_FACTORS = [1e3, 1e6, -1e9, 1e12, 1e20, -1e50, 1e100]
+TINY_POW2 = [2.0 ** -10, 2.0 ** -20, -2.0 ** -24, 2.0 ** -30, 2.0 ** -40, 2.0 ** -70, -2.0 ** -160, 2.0 ** -330]
+HUGE_POW2 = [2.0 ** 10, 2.0 ** 20, -2.0 ** 30, 2.0 ** 40, 2.0 ** 70, -2.0 ** 160, 2.0 ** 330]
+
+
+def scaled(rng, mapping, exact_mode):
+    """the mapping with every count multiplied by one tiny or huge factor (coverage- or mole-fraction-weighted make-ups, totals
+    over a large amount): the property is stated for all counts, and SE = |RMSE| sqrt(x'Mx) has no preferred scale"""
+    tiny = rng.random() < 0.6
+    k = rng.choice((TINY_POW2 if tiny else HUGE_POW2) if exact_mode else (TINY_FACTORS if tiny else HUGE_FACTORS))
+    return [(g, float(n) * k) for g, n in mapping], ('tiny' if tiny else 'huge')
 
 
 def one(ctx, batch, info, mapping, T, rel=False, psd=True, full_lib=False):
@@ -224,6 +252,9 @@ def shipped_cases(ctx, batch):
             r = rng.random()
             size = rng.randint(1, 4) if r < 0.5 else rng.randint(5, min(40, len(basis))) if r < 0.95 else len(basis)
             mapping = L.random_mapping(info, rng, size, with_missing=0.03)
+            if j % 5 == 4:
+                mapping, tag = scaled(rng, mapping, False)
+                ctx.count('scaled_mapping_' + tag)
             one(ctx, batch, info, mapping, rmse_temperatures(info, rng, 1)[0], rel=(j % 3 == 0), full_lib=(j % 10 == 0))
         ext = extended(info)
         for j in range(ctx.n(6, 60)):
@@ -253,6 +284,9 @@ def synthetic_cases(ctx, batch):
             m = []
             for nm in rng.sample(pool, rng.randint(1, len(pool))):
                 m.append((nm if rng.random() < 0.6 else info.keyobj[nm], rng.choice([1, 2, 3, -1, -2, 0, 0.5, 1.5, -0.25, Fraction(3, 4), Fraction(-5, 2), 4.0])))
+            if j == 3 and kind:
+                m, tag = scaled(rng, m, True)
+                ctx.count('scaled_mapping_' + tag)
             one(ctx, batch, info, m, rng.choice([298.15, 300.0, 1000.0]), rel=(j == 0), psd=(kind != 'indefinite'), full_lib=True)
             ctx.count('synthetic_%s' % kind)
 
@@ -385,6 +419,7 @@ def run(ctx):
             L.compare(ctx, c, rep, 'c20.estimate', parts=('uq', 'se'))
     L.floors(ctx, {'uq_libraries': 3, 'unit_vectors': 200, 'corr_cases': 600, 'model_notInBasis': 20, 'out_of_basis_shipped': 15,
                    'se_h_ok': 400, 'se_cp_incomplete': 50, 'expect_noUQ': 20, 'relational': 80, 'nan_on_indefinite': 5,
+                   'relational_factor_tiny': 80, 'relational_factor_huge': 80, 'scaled_mapping_tiny': 30, 'scaled_mapping_huge': 20,
                    'loader_checks': 3, 'loaded_scratch_libraries': 3, 'corpus': 1})
 
 
@@ -405,6 +440,8 @@ def replay(ctx, rec, batch=None):
         mapping = [((info.keyobj[str(k)] if str(k) in info.keyobj and not isinstance(k, str) else k), n) for k, n in mapping]
     c = L.run_case(info, mapping, T, want_se=True, full_lib=True)
     oracle(ctx, c, psd=not (inp.get('synth') or {}).get('kwargs', {}).get('with_uq') == 'indefinite')
+    if inp.get('factor') is not None:
+        c.input['factor'] = inp['factor']       # the recorded common factor is tried first
     relational(ctx, c)
     if batch is not None:
         batch.append(c)
